@@ -110,4 +110,89 @@ def runCancel (I : Nat) (t0 : Int) (scs : List Script) (tc : Nat) : St :=
   | .running => { s with status := .stopped }
   | _ => s
 
+/-! ## Session level (stream `sessions`): what the loop logs, when its goroutine returns, and the
+order of the statements of the sessions' `Close` methods -/
+
+/-- The instant at which ping `k` (k ≥ 1) is over; 0 for `k = 0` (no ping yet). -/
+def pingEnd (I : Nat) (scs : List Script) : Nat → Nat
+  | 0 => 0
+  | k + 1 =>
+    match scs[k]? with
+    | some sc => (k + 1) * I + (observe (pingTimeout I) sc).dur
+    | none => (k + 1) * I
+
+/-- The instant of the WARN record ("keepalive ping failed; tolerating below threshold") that one
+iteration of the ticker arm writes, if it writes one. -/
+def warnStep (I T : Nat) (s : St) (sc : Script) : List Nat :=
+  match s.status with
+  | .running =>
+    match observe (pingTimeout I) sc with
+    | .fail d => if tolerated (s.fails + 1) T then [(s.tick + 1) * I + d] else []
+    | _ => []
+  | _ => []
+
+def warnsFrom (I T : Nat) : St → List Script → List Nat
+  | _, [] => []
+  | s, sc :: t => warnStep I T s sc ++ warnsFrom I T (step I T s sc) t
+
+/-- Instants of all WARN records of a run. -/
+def warns (I : Nat) (t0 : Int) (scs : List Script) : List Nat := warnsFrom I (threshold t0) {} scs
+
+/-- … of the run cancelled at `tc`. -/
+def warnsCancel (I : Nat) (t0 : Int) (scs : List Script) (tc : Nat) : List Nat :=
+  warns I t0 (scs.take (ticksBefore I tc))
+
+/-- The instant at which the goroutine of `runCancel` returns (and its deferred `ticker.Stop` runs):
+the end of its last ping when the loop closed the session or stopped on method-not-found; otherwise
+the cancellation instant, or the end of the ping that was in flight then. -/
+def endAt (I : Nat) (t0 : Int) (scs : List Script) (tc : Nat) : Nat :=
+  let pre := scs.take (ticksBefore I tc)
+  let s := run I t0 pre
+  match s.status with
+  | .running => max tc (pingEnd I pre s.tick)
+  | _ => pingEnd I pre s.tick
+
+/-- One top-level statement of a session's `Close` method, as classified by the extractor
+(`Generated.KeepAlive.clientClosePath`, `serverClosePath`). -/
+inductive CloseAct where
+  | cancelKeepalive   -- `if x.keepaliveCancel != nil { x.keepaliveCancel() }`
+  | plain             -- a statement without `return`, `panic`, `goto`: control reaches the next one
+  | connClose         -- `err := x.conn.Close()`: may yield an error
+  | returnIfErr       -- `if err != nil { return … }`
+  | mayReturn         -- any other statement that contains a way out of the function
+  | ret               -- `return …`
+deriving DecidableEq, Repr
+
+def CloseAct.ofString : String → CloseAct
+  | "cancelKeepalive" => .cancelKeepalive
+  | "plain" => .plain
+  | "connClose" => .connClose
+  | "returnIfErr" => .returnIfErr
+  | "ret" => .ret
+  | _ => .mayReturn
+
+/-- Runs the statements of `Close`.  `connErr`: the transport connection's `Close` fails; `err`: the
+current value of `err != nil`; the oracle resolves the statements that may or may not leave the
+function.  Result: has keep-alive been cancelled when `Close` returns? -/
+def execClose (connErr : Bool) : List CloseAct → Bool → List Bool → Bool
+  | [], _, _ => false
+  | .cancelKeepalive :: _, _, _ => true
+  | .plain :: t, e, o => execClose connErr t e o
+  | .connClose :: t, _, o => execClose connErr t connErr o
+  | .returnIfErr :: t, e, o => if e then false else execClose connErr t e o
+  | .mayReturn :: t, e, o =>
+    match o with
+    | [] => false
+    | b :: o' => if b then false else execClose connErr t e o'
+  | .ret :: _, _, _ => false
+
+/-- Keep-alive is cancelled before anything that can fail or leave the function. -/
+def cancelFirst : List CloseAct → Bool
+  | .cancelKeepalive :: _ => true
+  | .plain :: t => cancelFirst t
+  | _ => false
+
+def clientClose : List CloseAct := clientClosePath.map CloseAct.ofString
+def serverClose : List CloseAct := serverClosePath.map CloseAct.ofString
+
 end KeepAlive
